@@ -92,6 +92,9 @@ inductive Err where
   | forcedFrom             -- forced transfer out of an account that does not permit it
   | blocked                -- recipient is blocked by the bank module
   | funds                  -- source has not enough coins
+  | invalid                -- `ValidateBasic` of the message / `MarkerAccount.Validate` of the marker it would leave
+  | negcoin                -- `sdk.Coin.Sub` panics ("negative coin amount"; baseapp turns it into a failed tx)
+  | badcoins               -- `sdk.NewCoins` panics on a negative coin ("invalid coin set"; likewise)
   deriving DecidableEq, Repr
 
 def Err.toString : Err → String
@@ -99,7 +102,8 @@ def Err.toString : Err → String
   | .perm => "err:perm" | .status => "err:status" | .mtype => "err:type" | .nogov => "err:nogov"
   | .authority => "err:authority" | .circulation => "err:circulation" | .noauthz => "err:noauthz"
   | .limit => "err:limit" | .recipient => "err:recipient" | .forcedFrom => "err:forcedfrom"
-  | .blocked => "err:blocked" | .funds => "err:funds"
+  | .blocked => "err:blocked" | .funds => "err:funds" | .invalid => "err:invalid"
+  | .negcoin => "panic:negcoin" | .badcoins => "panic:other"
 
 abbrev Res := Except Err Unit
 
@@ -334,6 +338,7 @@ structure Use where
 inductive AcceptRes where
   | rejectLimit                                   -- ErrInsufficientFunds "more than spend limit"
   | rejectRecipient                               -- ErrUnauthorized "cannot send to … address"
+  | panicNegative                                 -- `sdk.NewCoins(amount)` panics: "invalid coin set"
   | accept (delete : Bool) (updated : Grant)      -- Accept: true
   deriving DecidableEq, Repr
 
@@ -341,7 +346,10 @@ inductive AcceptRes where
 dropped (`keep = false`, what `authz.go:57` does: `Updated: &MarkerTransferAuthorization{
 TransferLimit: limitLeft}`). -/
 def acceptWith (keep : Bool) (g : Grant) (u : Use) : AcceptRes :=
-  -- limitLeft, isNegative := a.DecreaseTransferLimit(msg.Amount)   (= TransferLimit.SafeSub)
+  -- limitLeft, isNegative := a.DecreaseTransferLimit(msg.Amount)   (= TransferLimit.SafeSub =
+  -- `coins.safeAdd(NewCoins(amount).negative())`, types/coin.go:394: `NewCoins` drops a zero coin
+  -- and PANICS on a negative one, so a negative amount can never enlarge the grant)
+  if u.amount < 0 then .panicNegative else
   let limitLeft := Coins.sub g.limit [(u.denom, u.amount)]
   if !Coins.nonneg limitLeft then .rejectLimit
   else if !g.allow.isEmpty && !g.allow.contains u.to then .rejectRecipient
@@ -367,6 +375,7 @@ def authzHandlerWith (keep : Bool) (stored : Option Grant) (u : Use) : Except Er
     match acceptWith keep g u with
     | .rejectLimit => .error .limit
     | .rejectRecipient => .error .recipient
+    | .panicNegative => .error .badcoins
     | .accept true _ => .ok none
     | .accept false g' => .ok (some g')
 
@@ -424,7 +433,9 @@ structure Xfer where
   fromBal : Int            -- spendable balance of `from` in the denom
   deriving DecidableEq, Repr
 
-/-- `TransferCoin` (marker.go:624): the authz grant stored afterwards, or the error. -/
+/-- `TransferCoin` (marker.go:624): the authz grant stored afterwards, or the error. (Called with a
+negative amount — which `msgServer.Transfer` never does: `transferMsgWith` — the real function
+panics in `sdk.NewCoins` on the own-account / forced path too; that is not modelled here.) -/
 def transferCoinWith (keep : Bool) (c : Cfg) (x : Xfer) : Except Err (Option Grant) :=
   if c.status ≠ .active then .error .status
   else if c.mtype ≠ .restricted then .error .mtype
@@ -504,24 +515,30 @@ def AuthzStore.empty : AuthzStore := fun _ => none
 def AuthzStore.put (t : AuthzStore) (p : Pair) (g : Option Grant) : AuthzStore :=
   fun q => if q = p then g else t q
 
-/-- `msgServer.Transfer` (msg_server.go:381) → `TransferCoin(from, to, admin)` over the authz
-store. `c` is the marker as the signing administrator sees it (`c.acc` = the rights of `admin`);
-`x.selfFrom` / `x.stored` are taken from the addresses and the store. -/
+/-- `MsgTransferRequest.ValidateBasic` (types/msgs.go:258) → `msg.Amount.Validate()`
+(`sdk.Coin.Validate`: "negative coin amount"); zero is a valid coin. `msgServer.Transfer` calls it
+first (msg_server.go:379), as baseapp does for every message of a transaction. -/
+def validateBasicTransfer (u : Use) : Bool := decide (0 ≤ u.amount)
+
+/-- `msgServer.Transfer` (msg_server.go:375) → `ValidateBasic`, then `TransferCoin(from, to, admin)`
+over the authz store. `c` is the marker as the signing administrator sees it (`c.acc` = the rights
+of `admin`); `x.selfFrom` / `x.stored` are taken from the addresses and the store. -/
 def transferMsgWith (keep : Bool) (c : Cfg) (t : AuthzStore) (admin from_ : String) (x : Xfer) :
     Except Err AuthzStore :=
-  match transferCoinWith keep c { x with selfFrom := admin == from_, stored := t (from_, admin) } with
+  if !validateBasicTransfer x.use then .error .invalid
+  else match transferCoinWith keep c { x with selfFrom := admin == from_, stored := t (from_, admin) } with
   | .error e => .error e
   | .ok s' => .ok (t.put (from_, admin) s')
 
 /-- `msgServer.IbcTransfer` (msg_server.go:418) → `IbcTransferCoin` (marker.go:728) over the
-authz store: `MsgIbcTransferRequest.ValidateBasic` (→ ibc `MsgTransfer.ValidateBasic`: a token
-that is not positive is "insufficient funds"), the guard of `IbcTransferCoin`, then the ibc
+authz store: `MsgIbcTransferRequest.ValidateBasic` (→ ibc `MsgTransfer.ValidateBasic`: a negative
+token is "invalid coins", one that is not positive is "insufficient funds"), the guard of `IbcTransferCoin`, then the ibc
 transfer module takes the token out of the sender's account (`fromBal`). The marker's status is
 not looked at, `force_transfer` plays no role, the receiver is on another chain (no deposit /
 blocked-address rule) but is what the grant's allow list is compared with. -/
 def ibcTransferMsgWith (keep : Bool) (c : Cfg) (t : AuthzStore) (admin from_ : String) (u : Use)
     (fromBal : Int) : Except Err AuthzStore :=
-  if u.amount ≤ 0 then .error .funds
+  if u.amount ≤ 0 then .error (if u.amount < 0 then .invalid else .funds)
   else match ibcTransferCoinWith keep c (admin == from_) (t (from_, admin)) u with
     | .error e => .error e
     | .ok s' => if fromBal < u.amount then .error .funds else .ok (t.put (from_, admin) s')
@@ -561,12 +578,14 @@ def msgSeqWith (keep : Bool) (t : AuthzStore) : List TMsg → AuthzStore × List
 def usesOf (p : Pair) (cs : List (Pair × Use)) : List Use :=
   (cs.filter (fun e => e.1 == p)).map (·.2)
 
-/-! ## A marker through a history of messages (active marker, real message flow)
+/-! ## A marker through a history of messages (real message flow, every status)
 
-`MsgAddFinalizeActivateMarker`, then `MsgAddAccess` / `MsgDeleteAccess` / `MsgMint` / `MsgBurn` /
-`MsgWithdraw` by named accounts. The state keeps what the handlers consult: the access list, the
-recorded supply (updated by mint/burn only when the supply is fixed: `IncreaseSupply` /
-`DecreaseSupply`, marker.go:355,385), the coins in escrow and with each account. -/
+`MsgAddFinalizeActivateMarker` (an active marker at once) or `MsgAddMarker` (a proposed marker under
+its manager), then `MsgFinalize` / `MsgActivate` / `MsgCancel` / `MsgAddAccess` / `MsgDeleteAccess` /
+`MsgMint` / `MsgBurn` / `MsgWithdraw` by named accounts. The state keeps what the handlers consult:
+status and manager, the access list, the recorded supply (on an active marker updated by mint/burn
+only when the supply is fixed: `IncreaseSupply` / `DecreaseSupply`, marker.go:355,385; on a pending
+marker mint/burn change nothing but the record), the coins in escrow and with each account. -/
 
 structure MState where
   live : Bool := false
@@ -576,6 +595,8 @@ structure MState where
   mtype : MType := .coin
   escrow : Int := 0
   bals : List (String × Int) := []
+  status : Status := .active
+  manager : Option String := none    -- `m.GetManager()`; cleared by `SetStatus(StatusActive)`
   deriving DecidableEq, Repr
 
 def MState.rightsOf (s : MState) (a : String) : List Access :=
@@ -594,13 +615,25 @@ def MState.circulating (s : MState) : Int := s.escrow + (s.bals.map (·.2)).fold
 def MState.setBal (s : MState) (a : String) (v : Int) : MState :=
   { s with bals := (s.bals.filter (·.1 != a)) ++ [(a, v)] }
 
-/-- the handler's view for caller `a` (an active marker has no manager) -/
+/-- the handler's view for caller `a`: the marker's CURRENT status, whether `a` is its manager,
+`a`'s entry of the access list, and what `accountControlsAllSupply` computes for `a` -/
 def MState.cfgWith (viaBank : Bool) (s : MState) (a : String) : Cfg :=
-  { acc := s.rightsOf a, mgr := false, gov := false, status := .active, mtype := s.mtype,
+  { acc := s.rightsOf a, mgr := s.manager == some a, gov := false, status := s.status, mtype := s.mtype,
     forced := false, govCtl := true,
     ctlSupply := accountControlsAllSupplyWith viaBank (s.balOf a) s.record s.circulating }
 
 def MState.cfg (s : MState) (a : String) : Cfg := s.cfgWith supplyControlViaBank a
+
+/-- The clauses of `MarkerAccount.Validate` (types/marker.go:202) that a message of a history can
+break (every handler validates the marker before it stores it): a pending marker needs a manager
+or an administrator, a finalized one a minter or a non-zero supply. -/
+def MState.valid (s : MState) : Bool :=
+  !((s.status == .proposed || s.status == .finalized) && s.manager.isNone
+      && !s.rights.any (·.2.contains .admin))
+  && !(s.status == .finalized && !s.rights.any (·.2.contains .mint) && s.record == 0)
+
+/-- store the marker if `Validate` accepts it -/
+def MState.checked (s : MState) : Except Err MState := if s.valid then .ok s else .error .invalid
 
 /-- `MarkerAccount.GrantAccess` (types/marker.go:395): the new grant's rights first, then the
 rights the address already had that the new grant does not repeat; the entry moves to the end. -/
@@ -615,37 +648,71 @@ def revokeAccess (rs : List (String × List Access)) (a : String) : List (String
   rs.filter (·.1 != a)
 
 inductive SOp where
-  | create (amt : Int) (fixed : Bool) (ty : MType) (acc : List Access)   -- by "A", who gets `acc`
+  | create (amt : Int) (fixed : Bool) (ty : MType) (acc : List Access)   -- active at once, by "A", who gets `acc`
+  | propose (amt : Int) (fixed : Bool) (ty : MType) (acc : List Access)  -- `MsgAddMarker` by "A": proposed, manager "A"
+  | finalize (by_ : String)
+  | activate (by_ : String)
+  | cancel (by_ : String)
   | add (by_ to : String) (rights : List Access)
   | del (by_ who : String)
   | mint (by_ : String) (amt : Int)
   | burn (by_ : String) (amt : Int)
   | withdraw (by_ to : String) (amt : Int)
-  deriving Repr
+  deriving DecidableEq, Repr
 
 /-- one message on the marker: new state, or the rejection (state unchanged) -/
 def scenStepWith (viaBank : Bool) (s : MState) : SOp → Except Err MState
   | .create amt fixed ty acc =>
     .ok { live := true, rights := [("A", acc)], record := amt, fixed := fixed, mtype := ty, escrow := amt, bals := [] }
+  | .propose amt fixed ty acc =>
+    -- msgServer.AddMarker (msg_server.go:60): manager = the sender, no coin is minted yet
+    .ok { live := true, rights := [("A", acc)], record := amt, fixed := fixed, mtype := ty, escrow := 0, bals := [],
+          status := .proposed, manager := some "A" }
+  | .finalize by_ =>
+    match finalizeMarker (s.cfgWith viaBank by_) with
+    | .error e => .error e
+    | .ok () =>
+      -- "marker supply … has been defined as less than pre-existing supply" (marker.go:436)
+      if s.record < s.circulating then .error .invalid
+      else MState.checked { s with status := .finalized }
+  | .activate by_ =>
+    match activateMarker (s.cfgWith viaBank by_) with
+    | .error e => .error e
+    | .ok () =>
+      if s.record < s.circulating then .error .invalid
+      -- AdjustCirculation mints the recorded supply into the marker account; SetStatus(active)
+      -- clears the manager (types/marker.go:333)
+      else .ok { s with escrow := s.escrow + (s.record - s.circulating), status := .active, manager := none }
+  | .cancel by_ =>
+    match cancelMarker (s.cfgWith viaBank by_) (decide (0 < s.circulating - s.escrow)) with
+    | .error e => .error e
+    | .ok () => .ok { s with status := .cancelled }   -- on a cancelled marker: `return nil`, nothing written
   | .add by_ to rights =>
     match addAccess (s.cfgWith viaBank by_) with
     | .error e => .error e
-    | .ok () => .ok { s with rights := grantAccess s.rights to rights }
+    | .ok () => MState.checked { s with rights := grantAccess s.rights to rights }
   | .del by_ who =>
     match removeAccess (s.cfgWith viaBank by_) with
     | .error e => .error e
-    | .ok () => .ok { s with rights := revokeAccess s.rights who }
+    | .ok () => MState.checked { s with rights := revokeAccess s.rights who }
   | .mint by_ amt =>
     match mintCoin (s.cfgWith viaBank by_) with
     | .error e => .error e
     | .ok () =>
-      .ok { s with escrow := s.escrow + amt, record := if s.fixed then s.circulating + amt else s.record }
+      if s.status == .active then
+        .ok { s with escrow := s.escrow + amt, record := if s.fixed then s.circulating + amt else s.record }
+      -- proposed / finalized: "we allow adjusting the total_supply of the marker but we do not mint actual coin"
+      else MState.checked { s with record := s.record + amt }
   | .burn by_ amt =>
     match burnCoin (s.cfgWith viaBank by_) with
     | .error e => .error e
     | .ok () =>
-      if s.escrow < amt then .error .funds
-      else .ok { s with escrow := s.escrow - amt, record := if s.fixed then s.circulating - amt else s.record }
+      if s.status == .active then
+        if s.escrow < amt then .error .funds
+        else .ok { s with escrow := s.escrow - amt, record := if s.fixed then s.circulating - amt else s.record }
+      -- proposed / finalized: `m.GetSupply().Sub(coin)` (marker.go:271) panics below zero
+      else if s.record < amt then .error .negcoin
+      else MState.checked { s with record := s.record - amt }
   | .withdraw by_ to amt =>
     match withdrawCoins (s.cfgWith viaBank by_) .plain with
     | .error e => .error e
